@@ -138,6 +138,18 @@ def arg_token(c):
     return "val:" + lvl_token(c)
 
 
+def arg_label(at):
+    """Short label of an argument token for the input-distribution counters."""
+    parts = at.split(":")
+    if parts[0] == "val":
+        return "val:" + parts[1].split("=")[0]
+    if parts[0] == "str":
+        return "str"
+    if parts[0] == "tuple2":
+        return "tuple2:" + parts[1].split("=")[0] + ":" + parts[2].split("=")[0]
+    return "tupleN"
+
+
 def target_token(kind, name):
     if kind == "str":
         return "path:" + s_tok(name)
@@ -351,7 +363,7 @@ def run_resolve(ctx, res, impl, tables, cases=None):
         out = impl.dump(PROBE_OBJ, c, kind, name)
         case = dict(kind="resolve", compress=enc(c), target=kind, name=name, arg_token=at, target_token=tt)
         res.evaluations += 1
-        res.count("arg=" + at.split(":")[0] + ("" if ":" not in at else ":" + at.split(":")[1].split("=")[0]))
+        res.count("arg=" + arg_label(at))
         res.count("target=" + kind)
         res.nontrivial.add((at, tt))
         if out[0] == "err":
@@ -495,7 +507,7 @@ def roundtrip_case(res, impl, tables, case, drv_reqs, drv_pend):
     res.evaluations += 1
     res.count("proto=" + str(proto))
     res.count("size=" + case["gen"]["cls"])
-    res.count("compress=" + arg_token(compress))
+    res.count("compress=" + repr(compress))
     res.count("target=" + case["target"])
     out = impl.dump(obj, compress, case["target"], case["name"], protocol=proto)
     if out[0] != "ok":
